@@ -118,14 +118,22 @@ def _planar(draw):
 def _latlon(draw):
     n = draw(st.integers(1, 6))
     origin = (draw(st.floats(-70, 70)), draw(st.floats(-179, 179)))
-    ext = draw(st.sampled_from([20.0, 200.0, 3000.0]))
+    ext = draw(st.sampled_from([20.0, 200.0, 3000.0, 3000.0, "long-haul"]))
     pts = []
     for _ in range(n):
         if pts and draw(st.integers(0, 9)) == 0:
             pts.append(pts[draw(st.integers(0, len(pts) - 1))])
+        elif ext == "long-haul":
+            # legs of hundreds to thousands of km (arcs well below 180 degrees): the bearing changes along the great circle
+            pts.append((float(draw(st.integers(-70, 70))) + draw(st.sampled_from([0.0, 0.25, 0.5])),
+                        float(draw(st.integers(-150, 150))) + draw(st.sampled_from([0.0, 0.25, 0.5]))))
         else:
             y, x = draw(st.floats(-1, 1)) * ext, draw(st.floats(-1, 1)) * ext
             pts.append(gs.local_to_latlon(origin, y, x))
+    if ext == "long-haul":
+        # keep every leg below ~120 degrees of arc so that "the" great-circle connection is the minor arc by a wide margin
+        pts = [p for i, p in enumerate(pts) if i == 0 or gs.dist(pts[i - 1], p) < 1.3e7]
+        ext = 1.0e7
     hops = [gs.dist(a, b) for a, b in zip(pts, pts[1:]) if a != b] or [ext]
     mode = draw(st.integers(0, 2))
     exact = False
